@@ -305,6 +305,18 @@ func (c14r) Exec(r *kit.Run) {
 					}
 				},
 				func() {
+					// numbers turned into text (and back), a different one in every interpreter
+					var w struct {
+						A string
+						N int
+					}
+					n := 3000009 + 1000*gi
+					q := fmt.Sprintf("number_chars(%d, Cs), atom_chars(A, Cs), number_codes(%d, Ds), number_codes(N, Ds).", n, n+1)
+					if err := p.QuerySolution(q).Scan(&w); err != nil || w.A != fmt.Sprint(n) || w.N != n+1 {
+						bad("number_chars/2, number_codes/2 of its own number", fmt.Sprint(w.A, " ", w.N), err)
+					}
+				},
+				func() {
 					// an iterator abandoned after its context was cancelled: Close, then Err, while the search goroutine winds up
 					ctx, cancel := context.WithCancel(context.Background())
 					defer cancel()
